@@ -1,6 +1,8 @@
 import NdnProofs.Lemmas.Lvs.Sanity
 import NdnProofs.Lemmas.Lvs.Sem
 import NdnProofs.Lemmas.Lvs.Example
+import NdnProofs.Lemmas.Lvs.CompileVDet
+import NdnProofs.Lemmas.Lvs.CompileExample
 /-!
 # C11 — a compiled trust schema matches exactly the names it describes (compiled-model level)
 
@@ -11,10 +13,19 @@ node to `n` whose edges accept the components of `name` one by one (value edge: 
 edge: tag unbound or bound to that component, every constraint has an option that holds under the
 bindings made so far; an unbound named tag becomes bound), ending with bindings `σ'`.
 
-**What is not proved**: `compile_correct` — that the tree produced by `compile_lvs` denotes the source
-text (lvs.rst).  The compiler passes are not modelled in Lean; that half of C11 is covered by the
-correspondence run (real compiler → real binary encoder → Lean matcher vs real checker) and by the
-source-level oracle of the harness.
+The compiler is modelled as well (`NdnModel/Lvs/{Ast,Compile}.lean`: `Ndn.Lvs.compile`, the passes of
+`compiler.py` as written — rule sorting, pattern numbering, DNF replication / reference inlining with fresh
+temporaries, node merging, signer resolution — from the parsed AST to the `Model` value).  It is tied to the
+real `compile_lvs` on every run: the harness sends each generated schema AST to the Lean compiler and
+compares the node pool it returns with the one the real compiler produced (exactly; up to the numbering of
+nodes and tags if the two differ only in that), and the Lean matcher then runs on the Lean-compiled pool.
+
+**What is proved about the compiler model**: every model it emits for an AST the parser can produce is
+`Sane` and `VDet` (`compiled_match_iff`: the hypotheses of `compile_correct_partial` are discharged for
+compiler output).  **What is not proved**: `compile_correct` — that the tree denotes the source text
+(lvs.rst): numbering preserves the source semantics, replication = union over alternatives and inlined
+references, node merging preserves the accepted (name, bindings) pairs.  That half of C11 rests on the
+correspondence run and on the source-level oracle of the harness.
 -/
 namespace Ndn.C11
 open Ndn Ndn.Lvs
@@ -53,8 +64,11 @@ theorem matchTree_iff_Sem (m : Model) (hs : Sane m) (hv : VDet m) (env : FnEnv) 
   ⟨Ndn.Lvs.matchTree_sound m env name _ _ _ _,
    fun h => matchTree_complete m env (edgeTotal_of_sane hs env henv) hv h Reach.start⟩
 
-/-- **compile_correct_partial.**  Full statement (not proved — needs a model of the compiler):
-    `WFSchema S → ∀ name, {(rule, bindings) reported by Checker(compile S).match name} = Sem S name`.
+/-- **compile_correct_partial.**  Full statement (not proved):
+    `WFSchema S → ∀ name, {(rule, bindings) reported by Checker(compile S).match name} = Sem S name`,
+    where `Sem` is the source-level semantics of docs/src/lvs/lvs.rst.  The compiler is modelled
+    (`Ndn.Lvs.compile`) and its output is proved `Sane` and `VDet` (`compiled_match_iff`), but the three
+    semantic layers (numbering, replication, node merging preserve `Sem`) are not proved.
     Proved part, for every model that passes the loader (in particular the compiler's output, used
     directly or after save/load, which yields the same `Model` value): the iterative checker reports node
     `n` with bindings `σ'` iff `name` matches `n` with `σ'` in the denotation of the compiled tree. -/
@@ -63,6 +77,20 @@ theorem compile_correct_partial (m : Model) (hs : Sane m) (hv : VDet m) (env : F
     (n, σ') ∈ (matchIter m env name σ).outs ↔ Matches m (pureOf env) σ name n σ' := by
   rw [(matchIter_eq_matchTree m hs env name σ (matchIter_no_err m hs env henv name σ)).2.1]
   exact matchTree_iff_Sem m hs hv env henv name σ n σ'
+
+/-- **compiled_match_iff.** For the output of the compiler model on any AST the parser can produce
+    (`Schema.WF`), without further hypotheses on the model: the iterative checker reports node `n` with
+    bindings `σ'` iff `name` matches `n` with `σ'` in the denotation of the compiled tree.  (The model is
+    `Sane` whether or not the loader's `top_order` then finds a signing loop.) -/
+theorem compiled_match_iff (S : Schema) (hwf : S.WF) (m : Model) (syms : List String)
+    (h : compile S = .ok (m, syms)) (env : FnEnv) (henv : EnvTotal env)
+    (name : List Bytes) (σ : Ctx) (n : Nat) (σ' : Ctx) :
+    (n, σ') ∈ (matchIter m env name σ).outs ↔ Matches m (pureOf env) σ name n σ' :=
+  compile_correct_partial m (compile_built S hwf m syms h).sane (compile_vdet S m syms h) env henv name σ n σ'
+
+/-- the compiler emits one value edge per distinct component -/
+theorem compiled_vdet (S : Schema) (m : Model) (syms : List String) (h : compile S = .ok (m, syms)) : VDet m :=
+  compile_vdet S m syms h
 
 /-- `Checker.match`: the rule names reported are those of the matched nodes, after dropping a trailing
     implicit digest. -/
@@ -88,5 +116,12 @@ example : Matches model (pureOf allFns) [] [cK, cA] 4 [(1, cA)] :=
   matchTree_sound model allFns [cK, cA] [] 4 [(1, cA)] (by decide)
 open Example in
 example : (matchIter model allFns [cD, cE] []).outs = [(2, [(1, cE)])] := by decide
+/-- the schema compiles (in the compiler model) to the model of these examples -/
+example : compile Example.schema = .ok (Example.model, ["x"]) := Example.compile_schema
+example : VDet Example.model := compiled_vdet _ _ _ Example.compile_schema
+open Example in
+example : Matches model (pureOf allFns) [] [cD, cE] 2 [(1, cE)] :=
+  (compiled_match_iff schema schema_wf model ["x"] compile_schema allFns
+    (fun _ => ⟨_, rfl, fun _ _ => ⟨true, rfl⟩⟩) [cD, cE] [] 2 [(1, cE)]).mp (by decide)
 
 end Ndn.C11
